@@ -8,4 +8,6 @@ def main (args : List String) : IO UInt32 := do
   | ["wait"] => Driver.WaitC.main; return 0
   | ["wire"] => Driver.WireC.main; return 0
   | ["sched"] => Driver.SchedC.main; return 0
+  | ["sessin"] => Driver.SessInC.mainS; return 0
+  | ["listener"] => Driver.SessInC.mainL; return 0
   | _ => IO.eprintln "usage: kcpdriver <component>"; return 2
